@@ -271,7 +271,12 @@ def _enum_values(kind: Kind) -> list:
             out.append(cls(v))
         except ValueError:  # a closed enum: undefined values cannot be represented
             pass
+        except TypeError as e:  # the enum's own construction of a value fails: a field value that cannot exist
+            BROKEN_ENUMS.setdefault(f'{cls.__module__}.{cls.__qualname__}', (int(v), f'{type(e).__name__}: {e}'))
     return out
+
+
+BROKEN_ENUMS: dict = {}  # enum class -> (value, error) for values whose construction raised something other than ValueError
 
 
 def _coding_formats(cls) -> list:
